@@ -1,6 +1,6 @@
 (* Dispatch.v — single entry point used by the OCaml runner and by the in-Coq
    cross-check: component name + input value -> observation value. *)
-From XV Require Import Base Options Worker Ctl Sched DSession System StatRec Rsync Warn.
+From XV Require Import Base Options Worker Ctl Sched DSession System StatRec Rsync Warn GroupMark.
 
 Definition dispatch (name : string) (input : sx) : sx :=
   if String.eqb name "options" then run_options input
@@ -12,6 +12,7 @@ Definition dispatch (name : string) (input : sx) : sx :=
   else if String.eqb name "worker_trace" then run_worker_trace input
   else if String.eqb name "sched" then run_sched input
   else if String.eqb name "split" then run_split input
+  else if String.eqb name "groupmark" then run_groupmark input
   else if String.eqb name "system" then run_system input
   else if String.eqb name "coll_eq" then
     match input with
